@@ -107,6 +107,23 @@ Theorem derivative_correction_consistent_with_basis : forall d ep M N, sizes_ok 
 Proof. exact derivative_correction_consistent_lemma. Qed.
 Print Assumptions derivative_correction_consistent_with_basis.
 
+(** operations do not mutate their operand: no method updates in place an array that may be
+    the object's own coefficients / an argument / an attribute (may-alias scan of every
+    method), in particular the array that [integrate] multiplies in place is freshly
+    allocated whether no weight, weight=None or a weight array is passed; hence the
+    coefficients after [integrate] are the coefficients before, and repeating the call
+    gives the same result *)
+Definition integrate_operand_after (fresh : bool) (factor c : list R) : list R :=
+  if fresh then c else map (fun p => fst p * snd p) (combine c factor).
+Theorem operations_do_not_mutate_operand :
+  gen_inplace_on_operand = 0%nat /\ (forall w, gen_int_fresh w = true) /\
+  (forall w factor c, integrate_operand_after (gen_int_fresh w) factor c = c).
+Proof.
+  split; [reflexivity|]. split; [intro w; destruct w; reflexivity|].
+  intros w factor c. destruct w; reflexivity.
+Qed.
+Print Assumptions operations_do_not_mutate_operand.
+
 (** * 2. cardinal functions, interpolation, derivative matrix: arbitrary distinct nodes *)
 Theorem cardinal_delta : forall grid xn xm, In xm grid ->
   cardinal ROps grid xn xm = if Req_EM_T xn xm then 1 else 0.
